@@ -80,8 +80,14 @@ Step(S0, T0, r) ==
         (* C18: after an injected terminal failure the screen is not predicted any more; what *)
         (* remains is: no panic (above), the logical state, and errors reported by the calls  *)
         (* that return io::Result when their own draw failed.                                 *)
-        [S |-> [quietS EXCEPT !.faulty = TRUE], T |-> T1, m |-> NoM,
+        [S |-> [quietS EXCEPT !.faulty = TRUE,
+                              !.pendingOnce = IF r.op = "fail_at" THEN ~r.sticky ELSE (S0.pendingOnce /\ r.failed = 0),
+                              !.transient = S0.transient \/ (S0.pendingOnce /\ r.failed > 0)],
+         T |-> T1, m |-> NoM,
          rule |-> IF ~GetOK(S1, r) THEN "GetOK"
+                  (* C04 after a transient failure: the terminal works again, so an obligatory paint (finish, drop, force_draw, println ...) *)
+                  (* must reach the terminal again - what it shows is not predicted, that it is painted is                                   *)
+                  ELSE IF S0.transient /\ res.forced /\ ~drew THEN "ForcedOK"
                   ELSE IF r.op \in {"mp_println", "mp_clear"} /\ r.failed > 0 /\ r.ret # "err" THEN "ErrReported"
                   ELSE ""]
     ELSE IF SilentBar(S0, S1, r) /\ (LibCalls(r) # <<>> \/ r.pipe > 0) THEN
